@@ -41,11 +41,18 @@ def accepts(node_spec, v, beta_flag):
     return v in node_spec["versions"] and (v not in node_spec["beta"] or beta_flag)
 
 
-def handler(spec):
+def handler(spec, guard):
     versions = sorted(spec["versions"])
 
     def on_request(node, conn, req):
         v = req["version"]
+        # a negotiation that does not terminate is cut short here (and reported by the attempt bound below):
+        # once far more connections were opened than any chain allows, every node refuses new connections
+        guard["conns"].add(conn.sim_id)
+        if len(guard["conns"]) > guard["limit"]:
+            for nd in node.net.nodes.values():
+                nd.up = False
+            return ("close",)
         if v in spec["versions"]:
             if v in spec["beta"] and not req.get("beta"):
                 node.send(conn, v, req["stream"], "ERROR", wire.error_body(
@@ -104,9 +111,10 @@ def _run(case, ctx, sim):
     start, explicit, allow_beta = case["start"], case["explicit"], case["allow_beta"]
     nodes = case["nodes"]
     addrs = ["10.0.0.%d" % (i + 1) for i in range(len(nodes))]
+    guard = {"conns": set(), "limit": 4 * (len(ALL) + len(nodes)) + 8}
     for a, spec in zip(addrs, nodes):
         n = S.fix_legacy_rows(sim.net.add_node(a, versions=tuple(spec["versions"])))
-        n.on_request = handler(spec)
+        n.on_request = handler(spec, guard)
     prof = ExecutionProfile(load_balancing_policy=U.fixed_plan_policy())
     kw = dict(execution_profiles={EXEC_PROFILE_DEFAULT: prof}, allow_beta_protocol_version=allow_beta)
     if explicit:
